@@ -343,7 +343,7 @@ def apply_reference(repo):
             continue
         ref_locals = {n for n, _ in ref[q]["locals"]} | set(ref[q]["params"])
         n = _split_tuple_assignments(fi.node, ref_locals) + _split_chained_assignments(fi.node) + _assignments_to_ifexp(fi.node, ref[q], ref_locals)
-        n += _extend_displays(fi.node)
+        n += _extend_displays(fi.node) + _boolean_returns(fi.node, ref[q])
         n += _increment_through_temp(fi.node, ref_locals) + _ifexp_assignments(fi.node, ref_locals)
         _thread_none_tests(fi.node)
         n += _tail_duplicate(fi.node, ref_locals)
@@ -849,7 +849,9 @@ def describe_tests(fnode):
             t = _txt(n.test)
             ifs[t] = form if ifs.get(t, form) == form else "mixed"
     ifexps = sorted({_txt(n.test) for n in walk_own(fnode) if isinstance(n, ast.IfExp)})
-    return {"compares": sorted(set(comps)), "nots": sorted(set(nots)), "tests": sorted(set(tests)), "augs": augs, "ifs": ifs, "ifexps": ifexps}
+    returns = sorted({_txt(n.value) if n.value is not None else "" for n in walk_own(fnode) if isinstance(n, ast.Return)})
+    return {"compares": sorted(set(comps)), "nots": sorted(set(nots)), "tests": sorted(set(tests)), "augs": augs, "ifs": ifs, "ifexps": ifexps,
+            "returns": returns}
 
 
 _TERMINATORS = (ast.Return, ast.Raise, ast.Continue, ast.Break)
@@ -3064,6 +3066,44 @@ def _assignments_to_ifexp(fnode, ref_entry, ref_locals=None):
                 _invalidate(owner)
                 n += 1
     return n
+
+
+def _boolean_returns(fnode, ref_entry):
+    """return bool(E)   ->   if E: return True      when the reference version of the function answers with the two
+                             return False            constants (bool(E) is True when E is true and False otherwise)
+    return not E        ->   if E: return False / return True      likewise"""
+    rets = set(ref_entry.get("returns", ()))
+    if not ({"True", "False"} <= rets) or any(r.startswith(("bool(", "not ")) for r in rets):
+        return 0
+    n = 0
+    for owner, field, blk in _blocks(fnode):
+        for i, st in enumerate(blk):
+            if not (isinstance(st, ast.Return) and st.value is not None):
+                continue
+            v = st.value
+            if isinstance(v, ast.Call) and isinstance(v.func, ast.Name) and v.func.id == "bool" and len(v.args) == 1 and not v.keywords \
+                    and not isinstance(v.args[0], ast.Starred) and not _rebinds(fnode, "bool"):
+                test, first, second = v.args[0], "True", "False"
+            elif isinstance(v, ast.UnaryOp) and isinstance(v.op, ast.Not):
+                test, first, second = v.operand, "False", "True"
+            else:
+                continue
+            new = ast.parse("if %s:\n    return %s\nreturn %s" % (ast.unparse(test), first, second)).body
+            for top in new:
+                for y in ast.walk(top):
+                    ast.copy_location(y, st)
+                    for c_ in ast.iter_child_nodes(y):
+                        c_._parent = y
+                top._parent = owner
+            blk[i:i + 1] = new
+            _invalidate(owner)
+            n += 1
+    return n
+
+
+def _rebinds(fnode, name):
+    return any(isinstance(x, ast.Name) and x.id == name and isinstance(x.ctx, (ast.Store, ast.Del)) for x in ast.walk(fnode)) \
+        or any(a.arg == name for a in ast.walk(fnode) if isinstance(a, ast.arg))
 
 
 def _ifexp_assignments(fnode, ref_locals):
